@@ -704,6 +704,14 @@ func genC07(e *emitter, r *rng, thorough bool) {
 		e.emit("seed.sep", "bip39.seed "+hx([]byte(strings.Join(base, sp)))+" -")
 		e.emit("seed.sep-lead", "bip39.seed "+hx([]byte(sp+strings.Join(base, " ")+sp))+" "+hx([]byte("p")))
 	}
+	for _, c := range []int{30, 33, 36, 48, 60, 63, 64, 66, 75, 76, 79, 82, 85, 88, 96, 127, 128, 129, 140, 143, 146, 149, 152, 192, 204, 207, 210, 213, 216, 255, 256, 258, 268, 271, 274, 277, 280} {
+		// counts far above 24, in particular 12..24 + 64k / 128k / 256k (a count test through a narrow type or a bit mask)
+		ws := make([]string, c)
+		for k := range ws {
+			ws[k] = words[r.intn(len(words))]
+		}
+		e.emit("seed.count-large", "bip39.seed "+hx([]byte(strings.Join(ws, " ")))+" -")
+	}
 	for c := 0; c <= 27; c++ {
 		var ws []string
 		for k := 0; k < c; k++ {
